@@ -4,8 +4,30 @@ import (
 	"bytes"
 	"fmt"
 
+	"github.com/jfrog/go-rpm"
+
 	"github.com/edutko/decipher/internal/openpgp/packet"
 )
+
+// rpmStringByTag returns the first string of a tag, or "" when the tag is absent, is not a string tag or is empty.
+func rpmStringByTag(ix rpm.IndexEntries, tag int) string {
+	if e := ix.IndexByTag(tag); e != nil {
+		if s, ok := e.Value.([]string); ok && len(s) > 0 {
+			return s[0]
+		}
+	}
+	return ""
+}
+
+// rpmBytesByTag returns the raw value of a binary tag, or nil when the tag is absent or not binary.
+func rpmBytesByTag(ix rpm.IndexEntries, tag int) []byte {
+	if e := ix.IndexByTag(tag); e != nil {
+		if b, ok := e.Value.([]byte); ok {
+			return b
+		}
+	}
+	return nil
+}
 
 func rpmSignatureAttributes(sig []byte) []Attribute {
 	var attrs []Attribute
